@@ -74,6 +74,11 @@ def gen_actor(rng, max_iters=120, dims=(1, 2, 3, 4, 5), families=None, shipped_p
         spec["density_type"] = rng.choice(["np.int64", "np.int32"])     # density taken from a numpy array / rng.integers
     if rng.random() < 0.04:
         spec["holder"] = "new"                 # objective returns its value in a new FunctionValue
+    u = rng.random()
+    if u < 0.04:
+        spec["value_type"] = rng.choice(["np.float64", "0d"])     # objective value is a numpy scalar / a 0-d ndarray (np.squeeze, tensor.numpy())
+    elif u < 0.08:
+        spec["r_type"] = rng.choice(["np.float64", "0d"])         # r read from a numpy array / np.loadtxt
     if lower is not None and rng.random() < 0.04:
         spec["start_point"] = [l + (h - l) * float("%.3g" % rng.random()) for l, h in zip(lower, upper)]
     return spec
@@ -161,6 +166,37 @@ def share_problem(rng, actors, a0, a1, max_iters=30):
     s0["problem_obj"] = s1["problem_obj"] = "shared:Q"
     actors[a1] = s1
     return s1
+
+
+def add_listener_fault(rng, plan, aid="S0", hi=20):
+    """A listener of the user fails once (DoGlobalIteration lets the exception travel to the caller, Solve contains it) and
+    the caller keeps using the solver.  The failing listener is a recording listener appended to the actor's listeners."""
+    spec = plan["actors"][aid]
+    spec.setdefault("listeners", [])
+    lid = len(spec["listeners"])
+    spec["listeners"].append({"kind": "recording", "overrides": ["BeforeMethodStart", "OnEndIteration", "OnMethodStop"]})
+    cb = rng.choice(["OnEndIteration", "OnEndIteration", "OnEndIteration", "BeforeMethodStart", "OnMethodStop"])
+    plan.setdefault("lfaults", []).append({"a": aid, "lid": lid, "cb": cb, "index": 1 if cb != "OnEndIteration" else rng.choice([1, 1, 2, rng.randint(1, hi)]),
+                                           "exc": rng.choice(["ValueError", "KeyboardInterrupt", "SimFault"])})
+    plan["continue_after_fault"] = True
+    for _ in range(rng.randint(1, 3)):
+        plan["ops"].append({"a": aid, "op": "iterate", "k": rng.randint(1, 8)})
+    if rng.random() < 0.6:
+        plan["ops"].append({"a": aid, "op": "solve"})
+        if rng.random() < 0.5:
+            plan["ops"].append({"a": aid, "op": "iterate", "k": rng.randint(1, 5)})
+    return plan
+
+
+def sprinkle_clone(rng, ops, aid, prob=0.05):
+    """Checkpoint / rollback: at some moment the caller continues with a deep copy of the solver."""
+    if rng.random() >= prob:
+        return ops
+    idx = [i for i, o in enumerate(ops) if o.get("a") == aid and o["op"] in ("iterate", "solve", "create")]
+    if not idx:
+        return ops
+    i = rng.choice(idx)
+    return ops[:i + 1] + [{"a": aid, "op": "clone"}] + ops[i + 1:]
 
 
 def gen_clock(rng):
